@@ -539,3 +539,72 @@ fn wrap_scope(kind: usize, stmts: Vec<Stmt>) -> Stmt {
         }
     }
 }
+
+/// A literal evaluated again is pristine: a string or array literal is passed through every value-preserving
+/// context (directly, through `string()`, an identity function, an array literal and index, both branches
+/// of an `als`, an immediately called function, an assignment), the result is modified in place, and the
+/// same literal is then evaluated again — at the same site (second call, second loop iteration) and at
+/// another site with the same text.
+pub fn literal_pristine_programs() -> Vec<Vec<Stmt>> {
+    let mut out = Vec::new();
+    let lits: Vec<(nederlang::verif::Expr, nederlang::verif::Expr, bool)> = vec![
+        (string("-----"), string("*"), true),
+        (string("héé"), string("e"), true),
+        (array(vec![int(1), int(2), int(3)]), int(9), false),
+        (array(vec![string("ab"), flt(1.5)]), string("z"), false),
+    ];
+    for (lit, rep, is_str) in &lits {
+        let mut contexts: Vec<(&str, nederlang::verif::Expr)> = vec![
+            ("direct", lit.clone()),
+            ("identity-call", calln("idf", vec![lit.clone()])),
+            ("array-and-index", index(array(vec![lit.clone(), int(0)]), int(0))),
+            ("if-true", iff(boolean(true), vec![es(lit.clone())], None)),
+            ("if-else", iff(boolean(false), vec![es(int(0))], Some(vec![es(lit.clone())]))),
+            ("iife", call(func("", &[], vec![es(lit.clone())]), vec![])),
+            ("iife-return", call(func("", &[], vec![Stmt::Return(lit.clone()), es(int(0))]), vec![])),
+            ("assignment", assign(id("tmp"), lit.clone())),
+            ("second-argument", calln("snd", vec![int(0), lit.clone()])),
+        ];
+        if *is_str {
+            contexts.push(("string()", calln("string", vec![lit.clone()])));
+            contexts.push(("string(string())", calln("string", vec![calln("string", vec![lit.clone()])])));
+            contexts.push(("print-then-string()", calln("string", vec![lit.clone()])));
+        }
+        for (name, ctx) in contexts {
+            let prelude = vec![
+                es(func("idf", &["p"], vec![es(id("p"))])),
+                es(func("snd", &["p", "q"], vec![es(id("q"))])),
+                let_("tmp", int(0)),
+            ];
+            // the same site twice, through a function
+            let mut p1 = prelude.clone();
+            if name == "print-then-string()" {
+                p1.push(es(calln("print", vec![lit.clone()])));
+            }
+            p1.push(es(func("mk", &["n"], vec![let_("s", ctx.clone()), es(assign(index(id("s"), id("n")), rep.clone())), es(id("s"))])));
+            p1.push(es(calln("print", vec![calln("mk", vec![int(0)])])));
+            p1.push(es(calln("print", vec![calln("mk", vec![int(1)])])));
+            p1.push(es(calln("print", vec![lit.clone()])));
+            out.push(p1);
+            // the same site twice, in a loop at top level
+            let mut p2 = prelude.clone();
+            p2.push(let_("i", int(0)));
+            p2.push(es(whil(
+                infix(id("i"), Operator::Lt, int(2)),
+                vec![let_("s", ctx.clone()), es(assign(index(id("s"), id("i")), rep.clone())), es(calln("print", vec![id("s")])), es(op_assign("i", Operator::Add, int(1)))],
+            )));
+            p2.push(es(calln("print", vec![lit.clone()])));
+            out.push(p2);
+            // another site with the same text, before and after
+            let mut p3 = prelude.clone();
+            p3.push(let_("before", lit.clone()));
+            p3.push(let_("a", ctx.clone()));
+            p3.push(es(assign(index(id("a"), int(0)), rep.clone())));
+            p3.push(let_("b", lit.clone()));
+            p3.push(let_("c", ctx.clone()));
+            p3.push(es(calln("print", vec![string("{} {} {} {}"), id("before"), id("a"), id("b"), id("c")])));
+            out.push(p3);
+        }
+    }
+    out
+}
